@@ -14,6 +14,17 @@ def obligations(tier):
                       sample="every sequence of <= %d operations from {publish(len), publish_by_addr(addr,len), change_code(addr,len), "
                              "update_code_arr(1-2 locations)} with symbolic lengths 0..48, offsets and addresses, then code_finish; checking "
                              "MIR_code_alloc_t (page protection state, mapping ledger), page size 64" % nops))
+    names = {0: "publish", 1: "publish_by_addr", 2: "change", 3: "update"}
+    seqs = [(0, 2), (0, 3), (0, 0), (0, 1), (1, 0)] + ([(0, 0, 2), (0, 2, 3), (0, 1, 2), (0, 3, 0)] if tier == "thorough" else [])
+    for sq in seqs:
+        n = len(sq)
+        loops = {"memcpy#0": 8, "memcpy#1": 50, "_MIR_set_code#0": 3, "_MIR_set_code#1": 3, "_MIR_update_code_arr#0": 3,
+                 "code_finish#0": n + 2, "h_ledger_find#0": 8, "h_ledger_live#0": 8, "h_mem_protect#0": 8, "h_memcpy_hook#0": 8,
+                 "h_memcpy_hook#1": 50, "h_mem_map#0": 8, "h_mem_unmap#0": 8, "h_mem_unmap#1": 8, "h_no_page_writable#0": 8}
+        obs.append(Ob("code_holders." + "+".join(names[k] for k in sq), "C17/code_holders.c",
+                      defs=["H_NOPS=%d" % n, "H_OPSEQ=" + ",".join(str(k) for k in sq)], loops=loops, unwind=8,
+                      unwindset={"harness.%d" % i: 50 for i in range(8)}, checks="memsafe-noptr", timeout=1500, object_bits=10,
+                      sample="operation sequence %s with symbolic lengths 0..48, offsets and addresses, then code_finish" % " ; ".join(names[k] for k in sq)))
     # the VARR / HTAB contracts with the ledger allocator are the C19 harnesses (they assert: realloc is told the true old
     # size, no use of a stale block, destroy frees every block exactly once, free_func once per dropped element)
     for ob in C19.obligations(tier):
@@ -24,7 +35,7 @@ def obligations(tier):
 
 
 META = {
-    "bounds": {"code holders": "<= 1 (quick) / 2 (thorough) operations, lengths 0..48 bytes, page size 64, arena 6 pages",
+    "bounds": {"code holders": "every sequence of <= 1 operations and 5 fixed two-operation sequences (quick); every sequence of <= 2 and 4 fixed three-operation sequences (thorough), lengths 0..48 bytes, page size 64, arena 6 pages",
                "containers": "as C19 (VARR one step from an arbitrary state; HTAB operation sequences)"},
     "assumptions": ["code memory is an integer address range backed by a shadow array written only by the observed memcpy "
                     "(the library writes code memory through memcpy in _MIR_set_code only; symbolic object addresses make the page arithmetic intractable)",
